@@ -28,7 +28,8 @@ Definition hdrs := list (str * str).
 (* the response body: a list object, or a one-shot iterator (closable = has .close(), e.g. a generator) *)
 Inductive appit :=
 | AList (cs : list bytes)
-| AIter (closable : bool) (cs : list bytes).
+| AIter (closable : bool) (cs : list bytes)
+| ATuple (cs : list bytes).       (* re-iterable but not a list (tuple): never consumed, no .close() *)
 
 Record resp := mkR { r_status : str; r_headers : hdrs; r_app : appit; r_cond : bool }.
 
@@ -36,7 +37,7 @@ Record resp := mkR { r_status : str; r_headers : hdrs; r_app : appit; r_cond : b
 Record cfg := mkCfg { d_ctype : option str; d_charset : option str; d_cond : bool }.
 
 Definition chunks (a : appit) : list bytes :=
-  match a with AList cs => cs | AIter _ cs => cs end.
+  match a with AList cs => cs | AIter _ cs => cs | ATuple cs => cs end.
 (* b"".join(app_iter) *)
 Definition content (r : resp) : bytes := List.concat (chunks (r_app r)).
 
@@ -359,6 +360,7 @@ Inductive op :=
 | OSetContentType (c : option str)          (* r.content_type = c *)
 | OSetStatus (s : sarg)                     (* r.status = s *)
 | OSetLocation (v : option str)             (* r.location = v *)
+| OSetContentLength (n : option N)          (* r.content_length = n  (also the constructor's content_length=) *)
 | OCall (head : bool).                      (* r(environ, start_response), iterated and closed by the server *)
 
 Definition vstr_list (l : list str) : val := VList (map VStr l).
@@ -424,7 +426,7 @@ Section Model.
   Definition write_bytes (x : bytes) (r : resp) : resp * res N :=
     let r1 := match r_app r with
               | AList _ => r
-              | AIter _ cs => cl_set (with_app r (AList cs)) (sum_len cs)
+              | a => cl_set (with_app r (AList (chunks a))) (sum_len (chunks a))
               end in
     let r2 := with_app r1 (AList (chunks (r_app r1) ++ [x])) in
     match cl_get r2 with
@@ -537,7 +539,7 @@ Section Model.
       mkCalled calls (chunks (r_app r))
         (match r_app r with
          | AIter cl _ => with_app r (AIter cl [])
-         | AList _ => r
+         | _ => r
          end).
 
   (* a chunk list that contains a (symbolic) gzip stream is compared joined: zlib decides the chunking *)
@@ -579,6 +581,11 @@ Section Model.
         | None => (with_headers r (hdel K_LOC (r_headers r)), VNone)
         | Some x => let '(h, e) := hset N_LOC x (r_headers r) in (with_headers r h, vnone_or_err e)
         end
+    | OSetContentLength n =>
+        match n with
+        | Some x => (cl_set r x, VNone)
+        | None => (cl_del r, VNone)
+        end
     | OCall head => let k := call head r in (after k, vcalled k)
     end.
 
@@ -589,7 +596,7 @@ Section Model.
     VList [VStr (r_status r); vhdrs (r_headers r);
            match r_app r with
            | AList cs => VList [VStr (s2l "list"); vstr_list (canon_chunks cs)]
-           | AIter _ _ => VList [VStr (s2l "iter")]
+           | _ => VList [VStr (s2l "iter")]
            end].
   Fixpoint trace (ops : list op) (r : resp) : list val * resp :=
     match ops with
